@@ -2760,6 +2760,16 @@ int link_function_mips(
   uint32_t local_offset;
   int n;
 
+  // A jal can only name a multiple of 4 (address >> 2): a function appended
+  // at any other address (the source ended with data of odd length) could
+  // not be called.
+  if ((asm_context->address & 0x3) != 0)
+  {
+    printf("Error: Imported code would start at 0x%x: not a multiple of 4.\n",
+      asm_context->address);
+    return -1;
+  }
+
   for (n = 0; n < size; n = n + 4)
   {
     // A function whose size is not a multiple of 4 ends inside this word:
